@@ -77,6 +77,8 @@ def run(tier, seed):
             total_paths += 1
             for feat, score in (FEATURES if tier == "thorough" else [FEATURES[len(traces) % 3]]):
                 tc = dict(store=cfg["store"], match=cfg["match"], red=cfg["red"], feat=feat, score=score)
+                if len(traces) % 4 == 3:      # FlowShiftTracker on a static texture (zero optical flow)
+                    tc["flow"] = True
                 fr = observe(tc, cfg["w"], hist, rng)
                 traces.append(dict(id=len(traces), mode="C10", cfg=dict(cfg), frames=fr, tc=tc, hist=hist))
     j = judge("Trace_Tracker", [dict(id=t["id"], mode="C10", cfg=t["cfg"], frames=[dict(dets=f["dets"], ret=f["ret"], raised=f["raised"]) for f in t["frames"]]) for t in traces],
@@ -102,6 +104,7 @@ def run(tier, seed):
     pick = rng.sample(traces, min(n_sess, len(traces)))
     for k, t in enumerate(pick):
         kind = "topdown" if k % 2 == 0 else "bottomup"
+        t = dict(t, tc={k2: v for k2, v in t["tc"].items() if k2 != "flow"})     # sessions: coordinate-coded frames are no texture for optical flow
         o = run_session(kind, t["tc"], t["cfg"]["w"], t["hist"], random.Random(seed * 131 + k))
         sess.append(dict(id=k, cfg=dict(t["cfg"]), frames=o["frames"], skipped_with_animals=o["skipped_with_animals"], kind=kind, tc=t["tc"], hist=t["hist"], raised=o["raised"], stream=o.get("stream")))
     js = judge("Trace_System", [dict(id=x["id"], cfg=x["cfg"], frames=x["frames"], skipped_with_animals=x["skipped_with_animals"]) for x in sess],
@@ -126,7 +129,7 @@ def run(tier, seed):
                         spec_paths_replayed=total_paths)
     res.sample(dict(tc=traces[-1]["tc"], history=traces[-1]["hist"], frames=[dict(dets=f["dets"], ret=f["ret"]) for f in traces[-1]["frames"]]))
     res.assumptions += ["'far apart compared with their motion' is realised as 190 px separation, <= 0.5 px drift per frame, 40 px poses",
-                        "FlowShiftTracker, image features, max_tracks not covered"]
+                        "FlowShiftTracker on a static texture only (a quarter of the replayed histories); image features, max_tracks not covered"]
     return res
 
 
